@@ -251,13 +251,18 @@ def gen_const(fa, fq):
            'From Coq Require Import ZArith.', 'Local Open Scope Z_scope.', '']
     for name, src in (('fa', fa), ('fq', fq)):
         src = strip_comments(src)
-        m = re.search(r'const\s+BUFSIZE\s*:\s*usize\s*=\s*([\d\s*_]+);', src)
+        m = re.search(r'const\s+BUFSIZE\s*:\s*usize\s*=\s*([^;]+);', src)
         if not m:
             raise TranslateError('const: BUFSIZE of %s not found' % name)
         expr = m.group(1).replace('_', '').strip()
-        if not re.match(r'^\d+(\s*\*\s*\d+)*$', expr):
-            raise TranslateError('const: BUFSIZE expression not recognised')
-        out.append('Definition %s_bufsize : Z := %s.' % (name, expr))
+        # a constant expression over literals with * + << and parentheses; the VALUE is what the model uses
+        if not re.match(r'^[\d\s*+()<]+$', expr) or re.search(r'<(?!<)|<<<', expr.replace('<<', '')):
+            raise TranslateError('const: BUFSIZE expression not recognised: %r' % expr)
+        try:
+            val = int(eval(expr, {'__builtins__': {}}, {}))
+        except Exception:
+            raise TranslateError('const: BUFSIZE expression not recognised: %r' % expr)
+        out.append('Definition %s_bufsize : Z := %d.' % (name, val))
         m = re.search(r'pub\s+fn\s+with_capacity\s*\([^)]*\)\s*->[^{]*\{\s*assert!\(\s*capacity\s*>=\s*(\d+)\s*\)\s*;', src)
         if not m:
             raise TranslateError('const: capacity assertion of %s not found' % name)
@@ -394,6 +399,7 @@ def gen_display(fa, fq):
         body = display_impl(src, 'Error')
         arms = list(re.finditer(r'Error::(\w+)\s*(\{[^}]*\}|\([^)]*\))?\s*=>', body))
         seen = []
+        defs = {}
         for k, am in enumerate(arms):
             v = am.group(1)
             seen.append(v)
@@ -405,9 +411,13 @@ def gen_display(fa, fq):
             ws = find_writes(seg)
             if len(ws) != 1:
                 raise TranslateError('display: arm %s has %d write! calls' % (v, len(ws)))
-            out.append('Definition %s_msg_%s : list (list (list byte) * list arg) :=\n  %s.' % (prefix, v, coq_writes(ws)))
-        if seen != variants:
+            defs[v] = 'Definition %s_msg_%s : list (list (list byte) * list arg) :=\n  %s.' % (prefix, v, coq_writes(ws))
+        # the arms of a match over distinct variants may come in any order: one arm per variant is what matters
+        if sorted(seen) != sorted(variants) or len(set(seen)) != len(seen):
             raise TranslateError('display: %s error variants are %r, expected %r' % (prefix, seen, variants))
+        for v in variants:
+            if v in defs:
+                out.append(defs[v])
         out.append('')
     # ErrorPosition
     body = display_impl(strip_comments(fq), 'ErrorPosition')
@@ -434,6 +444,16 @@ TYMAP = {
     'Vec<usize>': 'TVecUsize',
     '(usize, usize)': 'TPairUsize',
     'Vec<BufferPosition>': 'TVecPos',
+}
+
+
+CANON_FIELDS = {
+    ('fa', 'BufferPosition'): ['start', 'seq_pos'],
+    ('fa', 'OwnedRecord'): ['head', 'seq'],
+    ('fa', 'RecordSet'): ['buffer', 'positions', 'npos'],
+    ('fq', 'BufferPosition'): ['pos', 'seq', 'sep', 'qual'],
+    ('fq', 'OwnedRecord'): ['head', 'seq', 'qual'],
+    ('fq', 'RecordSet'): ['buffer', 'buf_positions'],
 }
 
 
@@ -468,6 +488,13 @@ def gen_serde(fa, fq):
                     raise TranslateError('serde: field type %r not recognised' % ty)
                 sattrs = [a for a in fa_ if a.strip().startswith('serde')]
                 fields.append((fm.group(1), TYMAP[ty], sattrs))
+            # serde's derived (de)serialisers use one and the same declaration order on both sides (and
+            # self-describing formats identify fields by name), so a round trip does not depend on that order.
+            # The generated schema lists the fields in the order the hand-written encoders of Model/Serde.v use
+            # (the order at the time the model was written); fields the model does not know come last, in
+            # source order, and then make the theorems over this schema fail, as they must.
+            canon = CANON_FIELDS.get((prefix, st), [])
+            fields.sort(key=lambda f: (canon.index(f[0]) if f[0] in canon else len(canon)))
             fl = '; '.join('(%s, %s, %s)' % (bytes_lit(n.encode()), t, 'true' if a else 'false')
                            for n, t, a in fields)
             out.append('Definition %s_%s_schema : schema :=' % (prefix, st))
